@@ -18,6 +18,7 @@ pub fn spec() -> PropSpec {
         assumptions: &["float tolerance: track may be either neighbour integer when atan2 lands within 1e-9 deg of an integer"],
         workers: 16,
         also_nochk: false,
+        fuzz_target: None,
         quick_budget_s: 900,
         thorough_budget_s: 3600,
         min_nontrivial_quick: 60_000,
